@@ -297,9 +297,14 @@ def gen_cases(rng, tier):
         cs.append(Case("f 8 8 100000 2 " + FREE_TAG, "free-run"))
         cs.append(Case("f 15 1 20000 4 " + FREE_TAG, "free-run"))
         cs.append(Case("f 1 15 100000 8 " + FREE_TAG, "free-run"))
+        cs.append(Case("f 4 4 5000 4 stall=9000 " + FREE_TAG, "free-run-stalled-producer"))
+        cs.append(Case("f 6 2 3000 2 stall=9000 " + FREE_TAG, "free-run-stalled-producer"))
     else:
         cs.append(Case("f 4 4 5000 4 " + FREE_TAG, "free-run"))
         cs.append(Case("f 2 2 5000 2 " + FREE_TAG, "free-run"))
+        # one producer descheduled for seconds between its ticket and the release of its lane: the others
+        # wait behind it for as long as it takes (the model's push has no failing outcome), nothing is lost
+        cs.append(Case("f 4 4 5000 4 stall=5000 " + FREE_TAG, "free-run-stalled-producer"))
     return cs
 
 
